@@ -3,5 +3,7 @@ CONSTANTS
   NT = 1
   NU = 0
   NA = 0
+  Throwing = FALSE
+  WithMake = TRUE
   Vals = {1, 2}
 INVARIANTS TypeOK WellFormed LastAgrees
